@@ -19,8 +19,9 @@ AnyWrapped(P, s) == LET ins == P.steps[s].ins IN
                     (Has(ins, "a") /\ Wrapped(Reg(P, ins.a))) \/ (Has(ins, "b") /\ Wrapped(Reg(P, ins.b)))
 Owned(P, s) ==
   LET op == P.steps[s].ins.op IN
-  CASE Prop = "C01" -> op \in Arith /\ RankOfStep(P, s) <= 1                  \* bare numbers and numbers inside the generic container
-    [] Prop = "C02" -> (op \in Arith \cup {"to_d1", "gradient2"}) /\ (RankOfStep(P, s) = 2 \/ op = "gradient2")
+  \* C01 / C02 observe derivatives through gradient1 / gradient2, so those read-backs belong to them as well
+  CASE Prop = "C01" -> op \in Arith \cup {"gradient1"} /\ RankOfStep(P, s) <= 1     \* bare numbers and numbers inside the generic container
+    [] Prop = "C02" -> (op \in Arith \cup {"to_d1", "gradient1", "gradient2"}) /\ (RankOfStep(P, s) = 2 \/ op = "gradient2")
     [] Prop = "C03" -> op \in {"add", "sub", "mul", "div", "rem", "eq", "ne", "to_new_vars", "union_l", "union_r", "ptr_eq", "vars_cmp"} /\ ~AnyWrapped(P, s)
     [] Prop = "C17" -> op \in {"gradient1", "gradient2", "manifold", "mul"}
     [] Prop = "C18" -> op \in {"wrap", "unwrap", "to_n", "to_f64", "to_d1", "to_d2", "set_order", "set_order_clone"} \/ AnyWrapped(P, s)
